@@ -24,6 +24,7 @@ mod session;
 mod ssudp;
 mod stream;
 mod util;
+mod watch;
 
 use serde_json::json;
 
@@ -45,6 +46,7 @@ fn main() {
             }
             let (prop, tier, seed) = (args[2].as_str(), args[3].as_str(), args[4].parse::<u64>().unwrap_or(1));
             let mut s = session::Session::new();
+            watch::start(&args[5], &args[6]);
             let mut rng = util::Rng::new(seed);
             match prop {
                 "C01" => c01::generate(&mut s, tier, &mut rng),
@@ -76,6 +78,7 @@ fn main() {
             }
             let text = std::fs::read_to_string(&args[2]).expect("read ops");
             let mut s = session::Session::new();
+            watch::start(&args[3], "/dev/null");
             for line in text.lines() {
                 let line = line.trim();
                 if line.is_empty() || line.starts_with('#') {
